@@ -155,6 +155,7 @@ Qed.
 Ltac nfstep2 :=
   first [ nfstep
         | match goal with
+          | |- nf (err_is_panic (dec_mf ?r)) => let H := fresh in pose proof (nf_dec_mf r) as H; unfold err_is_panic; destruct (dec_mf r); try discriminate; exact H
           | |- nf (dec_mf _) => apply nf_dec_mf
           | |- nf (dec_match _) => apply nf_dec_match
           | |- nf (dec_lspec _) => apply nf_dec_lspec
